@@ -99,7 +99,7 @@ Proof.
     intros Hsd.
     destruct (dec_buffer (c_maxsz cfg) b) as [| | |f k]; try discriminate.
     { intros; inv_step; cbn; split; auto; discriminate. }
-    destruct (parse_cmd f); intros; inv_step; cbn [closed set_phase e_phase e_version e_mech];
+    destruct (parse_cmd f); try destruct (ready_incompatible _ _); intros; inv_step; cbn [closed set_phase e_phase e_version e_mech];
       try (split; [exact I|cbn; discriminate]).
     split; [exact Hsd|intros _; exact Hsd].
   - (* V2Identity *)
@@ -110,7 +110,7 @@ Proof.
     { intros; inv_step; cbn; split; auto; discriminate. }
     destruct (f_cmd f).
     + destruct (e_version st) as [[|]|]; try (intros; inv_step; cbn; split; auto; discriminate);
-        destruct (parse_cmd f); intros; inv_step; cbn [closed set_phase e_phase];
+        destruct (parse_cmd f); try destruct (ready_incompatible _ _); intros; inv_step; cbn [closed set_phase e_phase];
         try (split; [exact I|cbn; discriminate]); rewrite Ep; split; auto; cbn; discriminate.
     + destruct (MAX_FRAMES <=? length (e_partial st))%nat; [intros; inv_step; cbn; split; auto; discriminate|].
       destruct (f_more f); intros; inv_step; cbn [set_partial e_phase e_version e_mech]; rewrite Ep;
@@ -127,12 +127,12 @@ Proof.
   intros Hsd [Hp|[Hp|Hp]]; unfold estep; rewrite Hp; try discriminate.
   - destruct (dec_buffer (c_maxsz cfg) b) as [| | |f k]; try discriminate.
     { intros; inv_step; cbn; split; [exact Hsd|right; right; reflexivity]. }
-    destruct (parse_cmd f); intros; inv_step; (split; [exact Hsd|unfold sd_phase; cbn; tauto]).
+    destruct (parse_cmd f); try destruct (ready_incompatible _ _); intros; inv_step; (split; [exact Hsd|unfold sd_phase; cbn; tauto]).
   - destruct (dec_buffer (c_maxsz cfg) b) as [| | |f k]; try discriminate.
     { intros; inv_step; cbn; split; [exact Hsd|right; right; reflexivity]. }
     destruct (f_cmd f).
     + destruct (e_version st) as [[|]|]; try (intros; inv_step; (split; [exact Hsd|unfold sd_phase; cbn; tauto]));
-        destruct (parse_cmd f); intros; inv_step; (split; [exact Hsd|unfold sd_phase; cbn; tauto]).
+        destruct (parse_cmd f); try destruct (ready_incompatible _ _); intros; inv_step; (split; [exact Hsd|unfold sd_phase; cbn; tauto]).
     + destruct (MAX_FRAMES <=? length (e_partial st))%nat; [intros; inv_step; (split; [exact Hsd|unfold sd_phase; cbn; tauto])|].
       destruct (f_more f); intros; inv_step; (split; [exact Hsd|unfold sd_phase; cbn; tauto]).
 Qed.
@@ -165,7 +165,7 @@ Proof.
     destruct (m_process cfg (e_mech st) (f_payload f)) as [m'' [e|]]; [intros; inv_step; discriminate|].
     destruct (mech_is_error m''); intros; inv_step; discriminate.
   - destruct (dec_buffer (c_maxsz cfg) b) as [| | |f k]; try discriminate; try (intros; inv_step; discriminate).
-    destruct (parse_cmd f); intros; inv_step; unfold sd_phase; cbn; tauto.
+    destruct (parse_cmd f); try destruct (ready_incompatible _ _); intros; inv_step; unfold sd_phase; cbn; tauto.
   - destruct (negb (e_v2_sent st)); try (intros; inv_step; discriminate).
     destruct (dec_buffer (c_maxsz cfg) b) as [| | |f k]; try discriminate; try (intros; inv_step; discriminate).
     destruct (f_cmd f || f_more f); [intros; inv_step; discriminate|].
@@ -173,7 +173,7 @@ Proof.
   - destruct (dec_buffer (c_maxsz cfg) b) as [| | |f k]; try discriminate; try (intros; inv_step; discriminate).
     destruct (f_cmd f).
     + destruct (e_version st) as [[|]|]; try (intros; inv_step; discriminate);
-        destruct (parse_cmd f); intros; inv_step; discriminate.
+        destruct (parse_cmd f); try destruct (ready_incompatible _ _); intros; inv_step; discriminate.
     + destruct (MAX_FRAMES <=? length (e_partial st))%nat; [intros; inv_step; discriminate|].
       destruct (f_more f); intros H1 H2; inv_step; [discriminate|unfold sd_phase; cbn [set_partial e_phase]; tauto].
 Qed.
@@ -351,7 +351,7 @@ Proof.
       * destruct ps; inversion Epr.
       * destruct s, snt; inversion Epr; subst; cbn in *; congruence.
   - destruct (dec_buffer (c_maxsz cfg) b) as [| | |f k]; try discriminate; try (intros; inv_step; cbn in *; congruence).
-    destruct (parse_cmd f); intros; inv_step; cbn in *; congruence.
+    destruct (parse_cmd f); try destruct (ready_incompatible _ _); intros; inv_step; cbn in *; congruence.
   - destruct (negb (e_v2_sent st)); try (intros; inv_step; cbn in *; congruence).
     destruct (dec_buffer (c_maxsz cfg) b) as [| | |f k]; try discriminate; try (intros; inv_step; cbn in *; congruence).
     destruct (f_cmd f || f_more f); [intros; inv_step; cbn in *; congruence|].
@@ -359,7 +359,7 @@ Proof.
   - destruct (dec_buffer (c_maxsz cfg) b) as [| | |f k]; try discriminate; try (intros; inv_step; cbn in *; congruence).
     destruct (f_cmd f).
     + destruct (e_version st) as [[|]|]; try (intros; inv_step; cbn in *; congruence);
-        destruct (parse_cmd f); intros; inv_step; cbn in *; congruence.
+        destruct (parse_cmd f); try destruct (ready_incompatible _ _); intros; inv_step; cbn in *; congruence.
     + destruct (MAX_FRAMES <=? length (e_partial st))%nat; [intros; inv_step; cbn in *; congruence|].
       destruct (f_more f); intros; inv_step; cbn in *; congruence.
 Qed.
